@@ -176,7 +176,7 @@ def _fd_logdets(b, x, c):
     for mode in (1, -1, 0):
         J = np.zeros((n, n))
         for j in range(n):
-            h = 1e-6 * (1 + abs(xn.ravel()[j]))
+            h = 2e-8 * (1 + abs(xn.ravel()[j]))          # truncation ~ h f''/f', round-off ~ eps |f| / h: both ~ 1e-7
             e = np.zeros(n)
             e[j] = h
             if mode == 0:
